@@ -1,4 +1,4 @@
-SPECIFICATION MCSpec
+SPECIFICATION Spec
 CONSTANTS Scheme <- WScheme
           NumLocs <- WNumLocs
           LocPath <- WLocPath
@@ -12,7 +12,6 @@ CONSTANTS Scheme <- WScheme
           NumCodes <- WNumCodes
           CodeSize <- WCodeSize
           Batches = {0}
-          MaxCmds = 40
           Small = TRUE
 PROPERTY Terminates
 
